@@ -135,6 +135,10 @@ def check(case, ctx):
     specs = case["specs"]
     ms = [model.from_spec(s) for s in specs]
     arrs = [gen.build(s) for s in specs]
+    import zlib
+    for i_, (a_, s_) in enumerate(zip(arrs, specs)):
+        z_ = zlib.crc32(repr(s_["labels"]).encode()) + i_
+        common.set_fillattrs(a_, z_, ctx.outcomes), common.set_tols(a_, z_ + 2, ctx.outcomes)
     op, align, sort, variant = case["op"], case["align"], case["sort"], case["variant"]
     narr = len(arrs)
     nd = ms[0].ndim
@@ -159,7 +163,7 @@ def check(case, ctx):
             else:
                 fn = lambda: da.stack(arg, axis='new', keys=keys, **kw)
             label = "stack(%s, axis='new', keys=%r, %s) of %s" % (case["container"], keys, kw, desc)
-        res, exc = ctx.call(label, fn, operands=tuple(arrs), meta='drop', containers=(arg,))
+        res, exc = ctx.call(label, fn, operands=tuple(arrs), meta='drop', containers=(arg,), ambient=True)
         diff = differing_dims([model.MA(np.transpose(m.values, [m.dims.index(d) for d in ms[0].dims]), ms[0].dims,
                                         [m.labels[m.dims.index(d)] for d in ms[0].dims]) for m in ms])
         must_refuse = bool(diff) and not align
@@ -209,7 +213,7 @@ def check(case, ctx):
     axis = ck if case["axis_by_pos"] else d0
     arg = list(arrs) if case["container"] == 'list' else tuple(arrs)
     label = "concatenate(%s, axis=%r, %s) of %s" % (case["container"], axis, kw, desc)
-    res, exc = ctx.call(label, lambda: da.concatenate(arg, axis=axis, **kw), operands=tuple(arrs), meta='drop', containers=(arg,))
+    res, exc = ctx.call(label, lambda: da.concatenate(arg, axis=axis, **kw), operands=tuple(arrs), meta='drop', containers=(arg,), ambient=True)
     norm = [model.MA(np.transpose(m.values, [m.dims.index(d) for d in ms[0].dims]), ms[0].dims, [m.labels[m.dims.index(d)] for d in ms[0].dims]) for m in ms]
     diff = differing_dims(norm, skip=d0)
     if diff and not align:
